@@ -129,6 +129,13 @@ where
         }
     }
 
+    /// Construct a new P-Data value writer from outside the crate
+    /// (verification hook, same as the crate-private `new`).
+    #[cfg(enet4_dicom_rs_verif)]
+    pub fn new_for_verif(stream: W, presentation_context_id: u8, max_pdu_length: u32) -> Self {
+        Self::new(stream, presentation_context_id, max_pdu_length)
+    }
+
     /// Declare to have finished sending P-Data fragments,
     /// thus emitting the last P-Data fragment PDU.
     ///
@@ -474,6 +481,13 @@ pub mod non_blocking {
                 buffer,
                 state: WriteState::Ready,
             }
+        }
+
+        /// Construct a new P-Data value writer from outside the crate
+        /// (verification hook, same as the crate-private `new`).
+        #[cfg(enet4_dicom_rs_verif)]
+        pub fn new_for_verif(stream: W, presentation_context_id: u8, max_pdu_length: u32) -> Self {
+            Self::new(stream, presentation_context_id, max_pdu_length)
         }
 
         /// Declare to have finished sending P-Data fragments,
